@@ -1,22 +1,34 @@
 --------------------------- MODULE Trace_ItpWrite ---------------------------
 (* Batch validation of recorded runs of the real vermouth.gmx.itp.write_molecule_itp (C02).
-   Batch[i] = [mol  |-> the molecule in memory, projected by the harness (see ItpWrite: nodes / inter),
-               recs |-> the abstract records harness/indep_readers.read_itp found in the text that was written]
-   One event per trace ("RoundTrip(mol, records)" of DESIGN.md appendix B); the verdict is ItpWrite!Judge:
-   "ok" iff  ReadMol(recs) = Canon(mol), otherwise the first clause of the statement that fails.            *)
+   Batch[i] = [mol   |-> the molecule in memory BEFORE writing, projected by the harness (ItpWrite: nodes / inter / moltype /
+                         nrexcl / defs),
+               file  |-> [recs |-> the abstract records harness/indep_readers.read_itp found in the text that was written,
+                          pro  |-> the records of the lines before [ moleculetype ],
+                          head |-> [moltype, nrexcl, nrexcl_n] the [ moleculetype ] line],
+               num   |-> numeric reading of the [ atoms ] columns by the independent reader (ItpAgree),
+               rd    |-> the Block vermouth.gmx.itp_read.read_itp stored for the same text (ItpAgree),
+               again |-> [mol |-> the molecule projected AFTER writing, recs |-> records of a second write]]
+   One event per trace ("RoundTrip(mol, records)" of DESIGN.md appendix B); the verdict has three parts:
+     write  ItpWrite!JudgeFile: "ok" iff ReadMol(recs) = Canon(mol) (+ molecule type line, guarded defines), otherwise the
+            first clause of the statement that fails
+     agree  ItpAgree!AgreeVerdict: the repository's reader and the independent reader state the same thing, or the
+            named exclusion
+     pure   ItpWrite!Repeatable                                                                                     *)
 EXTENDS Integers, Sequences, FiniteSets, TLC, Json, IOUtils
 
 Batch == JsonDeserialize(IOEnv.TRACE_FILE)
 
 W == INSTANCE ItpWrite WITH KeySeqs <- {}, AidVals <- {}, AtomTab <- <<>>, CMPats <- {}, Pool <- {}, MaxInter <- 0,
-                            mol <- <<>>, out <- <<>>
+                            TokInt <- <<>>, TokDec <- <<>>, mol <- <<>>, out <- <<>>
 
 VARIABLES tid, verdict
 vars == <<tid, verdict>>
 
-Init == tid \in 1..Len(Batch) /\ verdict = "pending"
-Eval == /\ verdict = "pending"
-        /\ verdict' = W!Judge(Batch[tid].mol, Batch[tid].recs)
+Init == tid \in 1..Len(Batch) /\ verdict = [write |-> "pending", agree |-> "pending", pure |-> "pending"]
+Eval == /\ verdict.write = "pending"
+        /\ verdict' = [write |-> W!JudgeFile(Batch[tid].mol, Batch[tid].file),
+                       agree |-> W!AgreeVerdict(Batch[tid].file.head, Batch[tid].file.recs, Batch[tid].num, Batch[tid].rd),
+                       pure  |-> W!Repeatable(Batch[tid].mol, Batch[tid].file.recs, Batch[tid].again)]
         /\ UNCHANGED tid
 Spec == Init /\ [][Eval]_vars
 =============================================================================
